@@ -13,6 +13,7 @@ pub use crate::encoder::verif_plan_cache_capacity;
 pub use crate::encoder::verif_plan_cache_clear;
 #[cfg(feature = "std")]
 pub use crate::encoder::verif_plan_cache_snapshot;
+pub use crate::iterators::OctetIter;
 pub use crate::matrix::BinaryMatrix;
 pub use crate::matrix::DenseBinaryMatrix;
 pub use crate::octet::OCTET_MUL;
@@ -23,12 +24,14 @@ pub use crate::octet::OCTET_MUL_LOW_BITS;
 pub use crate::octet::Octet;
 pub use crate::octet::verif_oct_exp;
 pub use crate::octet::verif_oct_log;
+pub use crate::octet_matrix::DenseOctetMatrix;
 pub use crate::octets::BinaryOctetVec;
 pub use crate::octets::add_assign;
 pub use crate::octets::fused_addassign_mul_scalar;
 pub use crate::octets::fused_addassign_mul_scalar_binary;
 pub use crate::octets::mulassign_scalar;
 pub use crate::octets::verif_kernels;
+pub use crate::pi_solver::IntermediateSymbolDecoder;
 pub use crate::rng::rand;
 pub use crate::sparse_matrix::SparseBinaryMatrix;
 pub use crate::symbol_slab::SymbolSlab;
